@@ -2,7 +2,7 @@
    prod, list, sumbool, sumor map to OCaml's; N, Z, positive stay Coq datatypes. *)
 Require Extraction.
 From Coq Require Import ExtrOcamlBasic.
-From Clikit Require Import Base.Prelude Model.Dispatcher Model.Gate Model.Flags Model.Tokenizer Model.Format Model.Parser Model.Resolver Model.Run Model.Switches Model.Section Model.Progress Model.Question Model.QuestionText Model.AppState Model.Spinner Model.Spinner2 Model.Markup Model.OutputM Model.Wrap Model.Help Model.Table Model.Trace Model.Spell Model.GatedSection.
+From Clikit Require Import Base.Prelude Model.Dispatcher Model.Gate Model.Flags Model.Tokenizer Model.Format Model.Parser Model.Resolver Model.Run Model.Switches Model.RunLine Model.Section Model.Progress Model.Question Model.QuestionText Model.AppState Model.Spinner Model.Spinner2 Model.Markup Model.OutputM Model.Wrap Model.Help Model.Table Model.Trace Model.Spell Model.GatedSection.
 (* big integers on the wire: decimal digits <-> Z without OCaml bignums *)
 Definition z_of_digits (neg : bool) (ds : list Z) : Z :=
   let v := fold_left (fun acc d => (acc * 10 + d)%Z) ds 0%Z in if neg then Z.opp v else v.
